@@ -20,3 +20,36 @@ def pipeline_for(prog, rec, tier, rules, monitor=False, spawn=False, explanation
     rec.assume('an enumeration object holds one of its enumerators')
     rec.assume('stdio: fread returns min(remaining, n); feof only after a short read; fgetc/ungetc as ISO C')
     return pa
+
+
+def combined(prog, rec, tier, rules, driver=(), hmac=(), pipe=False, monitor=False, spawn=False, explanation=''):
+    """Run the selected shared analyses, keep the obligations of `rules`."""
+    from . import monitor as mon
+    info = {}
+    if pipe or monitor or spawn:
+        pa = pipeline.PipelineAnalysis(prog, rec)
+        if monitor:
+            mon.run_monitor(prog, rec, pa.A)
+        if spawn:
+            mon.run_spawn_join(prog, rec, pa.A)
+        if pipe:
+            pa.analyse()
+            info['pipeline'] = pa.info
+    if driver:
+        from .driver_rules import DriverRules
+        dr = DriverRules(prog, rec, tier)
+        for part in driver:
+            getattr(dr, part)()
+    if hmac:
+        from .hmac_rules import HmacRules
+        hr = HmacRules(prog, rec)
+        for part in hmac:
+            getattr(hr, part)()
+    rec.obls = [o for o in rec.obls if o.rule in rules]
+    rec.instances = {k: v for k, v in rec.instances.items() if any(k.startswith(r) for r in rules)}
+    rec.extra['explanation'] = explanation
+    rec.extra.update(info)
+    rec.assume('stdio keeps per-stream order of writes; fread returns min(remaining, n); fseek(SEEK_SET) positions absolutely')
+    rec.assume('an enumeration object holds one of its enumerators')
+    if pipe or monitor:
+        rec.assume('C++ memory model: accesses ordered by the same mutex or by thread creation/join do not race')
